@@ -148,8 +148,10 @@ def sym_mismatch(E, p, kf):
     n = E.concretize(E.int("n", 0, p["R"] * p["L"] + 1))
     data = [E.int(f"d{q}", -9, 9) for q in range(n)]
     how = p["how"]
-    got = outcome(lambda: _build_how(RaggedArray, data, lens, how))
     tot = z3.Sum(lens) if lens else z3.IntVal(0)
+    if "KF-C01-1" in kf and how == "shape":
+        E.assume(tot == n)       # open known finding: a RaggedShape *object* is not size-checked
+    got = outcome(lambda: _build_how(RaggedArray, data, lens, how))
     case = dict(lens=lens, data=data, how=how)
     if got["k"] == "raise":
         goal = tot != n
@@ -447,6 +449,12 @@ def jobs_saveload(tier, seed):
     q = tier == "quick"
     base = dict(R=3 if q else 4, L=3)
     return [dict(h="C01.saveload", p=dict(base, dtype=dt, legacy=leg)) for dt in ("int64", "bool", "uint8") for leg in (False, True)]
+
+
+def kf_match(case):
+    if case.get("how") == "shape" and sum(case["lens"]) != len(case["data"]):
+        return ["KF-C01-1"]
+    return []
 
 
 harness("C01.build", jobs_build, sym_build, conc_build)
